@@ -167,7 +167,12 @@ func genRun(r *hx.Rng, tier string) []string {
 	modes := []string{"di", "dix", "i", "ix", "d", "-"}
 	var ops []string
 	if tier != "thorough" {
-		ops = append(ops, runOp(r, 5, 3, hx.Pick(r, five[1:]), "dix"))
+		// the boundary seat (last member) is always in the first run's exclusion set
+		ex := []int{5}
+		if r.Bool() {
+			ex = []int{r.Range(1, 4), 5}
+		}
+		ops = append(ops, runOp(r, 5, 3, ex, "dix"))
 		ops = append(ops, runOp(r, 7, 4, hx.Pick(r, seven), "di"))
 		return ops
 	}
